@@ -296,6 +296,9 @@ class Cache:
         if n and not self.big and rnd.random() < 0.12:
             self.data = []          # the cache's data set becomes empty (empty full responses, withdraw-all deltas)
             n = 0
+        elif n and not self.big and self.ver == 1 and rnd.random() < 0.06:
+            self.data = [x for x in self.data if x[0] == "k"]     # router keys only: responses without any prefix PDU
+            n = 0
         for _ in range(n):
             x = rnd.choice(self.pool)
             if x in self.data:
@@ -361,14 +364,16 @@ def client_waiting(trace_lines):
     return state, last_q
 
 
-def build_conversation(rnd, nex=6, fault_p=0.45, cfg=None, chunking=None, faults=None, pre=True, final_good=0, plan=None):
+def build_conversation(rnd, nex=6, fault_p=0.45, cfg=None, chunking=None, faults=None, pre=True, final_good=0, plan=None, plan_pre=False):
     """Grow a script with the model in the loop. Returns (Script, meta).
     plan: a fixed list, one entry per query the client sends ("truthful" or a fault name); while the client is
-    ESTABLISHED the refresh timer is let run out.  Replaces the random choices (a told story instead of a random one)."""
+    ESTABLISHED the refresh timer is let run out.  Replaces the random choices (a told story instead of a random one).
+    An entry may carry prefixes that change the cache before it answers: "m:" its data set changes (new serial), "e:" its
+    data set becomes empty, "k:" it loses every prefix and keeps its router keys, "s:" it starts a new session."""
     cfg = cfg or {}
     if plan is not None:
         plan = list(plan)
-        nex, final_good, pre = 3 * len(plan) + 2, 0, False
+        nex, final_good, pre = 3 * len(plan) + 2, 0, plan_pre
     s = Script(refresh=cfg.get("refresh", rnd.choice([1, 30, 3600, 86400])),
                expire=cfg.get("expire", rnd.choice([600, 7200, 172800])),
                retry=cfg.get("retry", rnd.choice([1, 600, 7200])),
@@ -465,13 +470,23 @@ def build_conversation(rnd, nex=6, fault_p=0.45, cfg=None, chunking=None, faults
             cache.mutate()
         if not good and plan is None and rnd.random() < 0.08:
             cache.new_session()
-        pdus = cache.answer(q)
         f = None
         if plan is not None:
             f = plan.pop(0)
+            while len(f) > 2 and f[1] == ":":
+                if f[0] == "m":
+                    cache.mutate()
+                elif f[0] == "e":
+                    cache.mutate(n=0); cache.data = []; cache.history[cache.serial] = []
+                elif f[0] == "k":
+                    cache.mutate(n=0); cache.data = [x for x in cache.data if x[0] == "k"]; cache.history[cache.serial] = list(cache.data)
+                elif f[0] == "s":
+                    cache.new_session()
+                f = f[2:]
             f = None if f == "truthful" else f
         elif not good and rnd.random() < fault_p:
             f = rnd.choice(faults or FAULTS)
+        pdus = cache.answer(q)
         meta["exchanges"].append(f or "truthful")
         b = b"".join(pdus)
         if f is None:
